@@ -141,8 +141,38 @@ def one_case(rng, res):
         import in_toto.settings as st
         eff_patterns = patterns or list(st.ARTIFACT_EXCLUDE_PATTERNS)
         i = impl_record(d, base, starts, patterns, follow, normalize, lstrip, base == "setting")
+        # "valued by the SHA-256 of the file's content at that moment": the same directory recorded again in the same
+        # process after a file changed in place, keeping its size and time stamps
+        rerecord = None
+        files = [(p_, n_) for p_, n_ in T.all_paths(tree) if n_[0] == "f" and n_[1]]
+        if files and "ok" in i and rng.random() < 0.25:
+            vp, vn = rng.choice(files)
+            fp = os.path.join(d, vp)
+            st_ = os.stat(fp)
+            newc = bytes([vn[1][0] ^ 1]) + vn[1][1:]
+            with open(fp, "r+b") as f:
+                f.write(newc)
+            os.utime(fp, ns=(st_.st_atime_ns, st_.st_mtime_ns))
+            cur = tree
+            comps = vp.split("/")
+            for c_ in comps[:-1]:
+                cur = cur[c_][1]
+            old_node = cur[comps[-1]]
+            cur[comps[-1]] = ("f", newc)
+            i2 = impl_record(d, base, starts, patterns, follow, normalize, lstrip, base == "setting")
+            ref2 = T.reference_record(tree, starts, eff_patterns, follow, normalize, lstrip or [])
+            cur[comps[-1]] = old_node
+            rerecord = (vp, i2, ref2)
     finally:
         shutil.rmtree(d, ignore_errors=True)
+    if rerecord is not None:
+        vp, i2, ref2 = rerecord
+        res.evaluations += 1
+        res.count("rerecorded_after_in_place_change")
+        if ref2[0] == "ok" and {k: v for k, v in i2.items() if k != "cwd_restored"} != {"ok": sorted([k, v] for k, v in ref2[1].items())}:
+            res.fail("oracle", {"op": "record", "desc": dict(desc, changed_in_place=vp)},
+                     {"why": "recorded again after %r changed in place (same size, same time stamps): the recording is not the "
+                             "content at that moment" % vp, "impl": i2.get("ok", i2), "expected": sorted([k, v] for k, v in ref2[1].items())})
     cands = T.candidate_paths(tree, starts)
     req = {"op": "record", "root": T.model_node(tree, tree), "artifacts": starts,
            "excl": T.exclusion_table(eff_patterns, cands), "follow": follow, "normalize": normalize, "lstrip": lstrip or []}
